@@ -45,11 +45,13 @@ theorem finalize_order_matches :
 
 /-- Recover: not ready first / ready last (deferred), `.wait` hashed before it is put on the
     finalize list, complete partials renamed to `.full`, orphan companions removed, cache built
-    from the log before anything is queued, finalize list before validate list
-    (model: `recoverEffects`). -/
+    from the log before anything is queued, finalize list before validate list; in the validate
+    loop the duplicate test comes first (remove `.full`, remove the companion, drop the path
+    lock), then cache `received` and process (model: `recoverEffects`). -/
 theorem recover_order_matches :
     order_Recover = ["ready:false", "ready:true", "md5:wait", "complete?", "ren:part>full", "rm:-",
-      "complete?", "ren:->full", "buildcache", "cache:Validated", "fq", "cache:Received", "process"] := by
+      "complete?", "ren:->full", "buildcache", "cache:Validated", "fq", "rm:full", "rm:comp", "unlockpath",
+      "cache:Received", "process"] := by
   decide
 
 /-- cleanStrays: the only effects are a log search and the removal of the partial and of the
